@@ -320,7 +320,9 @@ def run(ch: Choices, opts: Dict[str, Any]) -> Dict[str, Any]:
     h = hashlib.blake2b(repr((prog, [str(z) for z in psi], debug)).encode(), digest_size=10).hexdigest()
     bump(faults, "collapse-draws-shared-by-twins", V.uni.nmeas)
     nontrivial = cross or ("carbon-carbon-gate" in gen.kinds)
-    return {"digest": h, "fingerprint": h, "nontrivial": bool(nontrivial), "events": len(prog), "sim_ns": 0,
+    dg = hashlib.blake2b(repr((rv, V.node.arrays(0), [str(np.round(z, 6)) for z in sn], N.node.env.crot_virtual)).encode(),
+                         digest_size=10).hexdigest()
+    return {"digest": dg, "fingerprint": h, "nontrivial": bool(nontrivial), "events": len(prog), "sim_ns": 0,
             "faults": faults, "probes": probes, "calm": calm,
             "sample": {"n_qubits": n, "debug": debug, "program": prog[:40], "transpiled_len": len(tsub.instructions)}}
 
